@@ -364,6 +364,8 @@ struct Base {
     void_ty: u32,
     fn_ty: u32,
     consts: Vec<u32>,
+    /// (constant id, its scalar type id) for OpConstant declarations
+    typed_consts: Vec<(u32, u32)>,
     values: Vec<u32>,
 }
 
@@ -433,10 +435,25 @@ fn base_module(cs: &mut Cs, rich: bool) -> Base {
     let c0 = fresh();
     m.types_global_values.push(inst(spirv::Op::Constant, Some(int_ty), Some(c0), vec![Operand::LiteralBit32(cs.lit32())]));
     consts.push(c0);
+    let mut typed_consts: Vec<(u32, u32)> = vec![(c0, int_ty)];
     if rich {
         let nextra = cs.below(8);
         for _ in 0..nextra {
-            match cs.below(9) {
+            match cs.below(11) {
+                9 | 10 => {
+                    // a narrow scalar type (8/16-bit integer, 16-bit float) and a constant of it: the
+                    // literal is one 32-bit word, which is what the lifter's constants hold
+                    let tid = fresh();
+                    if cs.bool() {
+                        t(&mut m, &mut types, tid, spirv::Op::TypeInt, vec![Operand::LiteralBit32([8u32, 16][cs.below(2)]), Operand::LiteralBit32(cs.below(2) as u32)]);
+                    } else {
+                        t(&mut m, &mut types, tid, spirv::Op::TypeFloat, vec![Operand::LiteralBit32(16)]);
+                    }
+                    let id = fresh();
+                    m.types_global_values.push(inst(spirv::Op::Constant, Some(tid), Some(id), vec![Operand::LiteralBit32(cs.lit32())]));
+                    consts.push(id);
+                    typed_consts.push((id, tid));
+                }
                 0 => {
                     let id = fresh();
                     let comp = [int_ty, float_ty, bool_ty][cs.below(3)];
@@ -478,6 +495,7 @@ fn base_module(cs: &mut Cs, rich: bool) -> Base {
                     let ty = if cs.bool() { int_ty } else { float_ty };
                     m.types_global_values.push(inst(spirv::Op::Constant, Some(ty), Some(id), vec![Operand::LiteralBit32(cs.lit32())]));
                     consts.push(id);
+                    typed_consts.push((id, ty));
                 }
                 7 => {
                     let id = fresh();
@@ -509,6 +527,7 @@ fn base_module(cs: &mut Cs, rich: bool) -> Base {
         void_ty,
         fn_ty,
         consts,
+        typed_consts,
         values: vec![],
     }
 }
@@ -651,13 +670,21 @@ fn add_function(cs: &mut Cs, b: &mut Base, body: &mut dyn FnMut(&mut Cs, &mut Ba
         // phis first
         let np = cs.below(3);
         for _ in 0..np {
-            let ty = b.types[cs.below(b.types.len())];
+            // a phi of a scalar type that has constants merges constants of that type half of the time
+            let with_consts = !b.typed_consts.is_empty() && cs.below(3) == 0;
+            let ty = if with_consts { b.typed_consts[cs.below(b.typed_consts.len())].1 } else { b.types[cs.below(b.types.len())] };
+            let same: Vec<u32> = b.typed_consts.iter().filter(|(_, t)| *t == ty).map(|(c, _)| *c).collect();
             let id = b.take_id();
-            let n = cs.below(3);
+            let n = if with_consts { 1 + cs.below(2) } else { cs.below(3) };
             let mut ops = vec![];
             for _ in 0..n {
-                // sources: ids unknown to the lifter (forward references) — same-typed results would
-                // need type tracking of every earlier op
+                // sources: constants of the phi's own type, or ids unknown to the lifter (forward
+                // references) — same-typed results would need type tracking of every earlier op
+                if with_consts && !same.is_empty() && cs.below(4) != 0 {
+                    ops.push(Operand::IdRef(same[cs.below(same.len())]));
+                    ops.push(Operand::IdRef(labels[cs.below(labels.len())]));
+                    continue;
+                }
                 ops.push(Operand::IdRef(6000 + cs.below(40) as u32));
                 ops.push(Operand::IdRef(labels[cs.below(labels.len())]));
             }
